@@ -42,7 +42,13 @@ def case(c, is_mutant, skip_tests=False, skip_build=False):
     try:
         tree = os.path.join(tmp, "repo")
         subprocess.check_call(["rsync", "-a", "--exclude", ".git", REPO + "/", tree + "/"])
-        err = apply(tree, c.get("edits", []))
+        err = None
+        if c.get("base"):
+            # the case starts from a kept behaviour-preserving refactoring (another correct spelling of the same code)
+            rc, out = run(["git", "apply", "--whitespace=nowarn", os.path.join(VERIF, "refactors", c["base"], "patch.diff")], tree)
+            if rc != 0:
+                err = "base refactoring " + c["base"] + " does not apply: " + out[-200:]
+        err = err or apply(tree, c.get("edits", []))
         if err:
             return c["id"], "BROKEN-CASE", err
         if not skip_build:
@@ -55,7 +61,7 @@ def case(c, is_mutant, skip_tests=False, skip_build=False):
                 return c["id"], "BROKEN-CASE", "fails the repository's tests: " + out[-600:]
         ev = os.path.join(tmp, "ev")
         os.makedirs(ev)
-        rc, out = run([os.path.join(VERIF, "bin", "fpcheck"), "-repo", tree, "-verif", VERIF, "-evidence", ev, "-property", "all", "-tier", "quick"], VERIF)
+        rc, out = run([os.environ.get("FPCHECK_BIN", os.path.join(VERIF, "bin", "fpcheck")), "-repo", tree, "-verif", VERIF, "-evidence", ev, "-property", "all", "-tier", "quick"], VERIF)
         fired = sorted(set(re.findall(r"^VIOLATION property=(C\d+)", out, re.M)))
         errors = re.findall(r"^CHECK-ERROR.*", out, re.M)
         if is_mutant:
